@@ -102,6 +102,21 @@ def tagged(ctx):
                         impl = {'error': DF.err_kind(e)}
                     reqs.append({'op': 'c04_pair', 'i': [R, n, shift, mode]})
                     metas.append((('flow', shift, R, n, mode), impl))
+    # large requests (tens of thousands of merged rows in one call): same pairing
+    for shift, R, n, mode in ((100, 3, 6000, 0), (0, 2, 9001, 1), (0, 5, 4000, 0)):
+        flow = Flow(TagTransform(), TagBase(), embedding_net=TagEmb(shift) if shift else None)
+        c = torch.arange(R, dtype=torch.float64).reshape(R, 1)
+        try:
+            if mode == 0:
+                s, l = flow.sample_and_log_prob(n, context=c)
+                impl = {'dims': list(s.shape[:2]) + list(l.shape), 's': s.reshape(-1).tolist(), 'l': l.reshape(-1).tolist()}
+            else:
+                s = flow.sample(n, context=c)
+                impl = {'dims': list(s.shape[:2]), 's': s.reshape(-1).tolist(), 'l': []}
+        except Exception as e:
+            impl = {'error': DF.err_kind(e)}
+        reqs.append({'op': 'c04_pair', 'i': [R, n, shift, mode]})
+        metas.append((('flow', shift, R, n, mode), impl))
     base = TagBase()
     for R in Rs:
         c = torch.arange(R, dtype=torch.float64).reshape(R, 1)
@@ -431,6 +446,7 @@ def search(ctx):
     try:
         cfgs, gen = search_cfgs(ctx)
         seen = set()
+        nbig = 0
         for cfg in cfgs:
             obj = cfg.build()
             obj.eval()
@@ -447,6 +463,17 @@ def search(ctx):
                     if r is not None and (cfg.name, 'direct') not in seen:
                         seen.add((cfg.name, 'direct'))
                         ctx.fail(r[0], case, detail={'residual': r[1]}, match={'class': cfg.name.split('[')[0], 'symptom': 'logprob-mismatch'})
+            if cfg.supports_ctx and cfg.ctx_dependent and cfg.model['k'] == 'Flow' and nbig < 4:
+                # one large request: several context rows x thousands of draws in a single call
+                nbig += 1
+                case = {'cfg': cfg.name, 'R': 3, 'n': 6000, 'seed': ctx.seed, 'oracle': 'direct'}
+                try:
+                    r = direct_case(obj, cfg, 3, 6000, ctx.seed, gen)
+                except Exception as e:
+                    r = ('raised %s: %s' % (DF.err_kind(e), str(e)[:120]), None)
+                if r is not None and (cfg.name, 'direct') not in seen:
+                    seen.add((cfg.name, 'direct'))
+                    ctx.fail(r[0], case, detail={'residual': r[1]}, match={'class': cfg.name.split('[')[0], 'symptom': 'logprob-mismatch'})
             if cfg.supports_ctx and cfg.model['k'] == 'Flow' and (cfg.name, 'update') not in seen:
                 case = {'cfg': cfg.name, 'R': 2, 'n': 3, 'seed': ctx.seed, 'oracle': 'update'}
                 try:
